@@ -84,6 +84,15 @@ func (s Slice) IsNil() bool { return s.Base.Obj == nil }
 
 type Str struct{ B []*Term }
 
+// Poison is the content of a global that belongs to a package whose init the
+// engine does not execute and that init would have assigned: its real initial
+// value is not modelled, so any read (or partial write) is an engine error
+// rather than a silent zero. A whole-object store replaces it.
+type Poison struct {
+	Name string
+	G    *ssa.Global
+}
+
 type Iface struct {
 	T types.Type
 	V Value
@@ -447,6 +456,9 @@ func ptrIdentical(a, b Ptr) bool {
 // ---- path get / set ----
 
 func (ex *Exec) getPath(v Value, path []PathElem) Value {
+	if pz, ok := v.(Poison); ok {
+		panic(engineErr("read of %s: its package's init is not executed by the engine, so its initial value is not modelled (force the init with //verif:init, assign it in the harness, or stub the reader)", pz.Name))
+	}
 	for k, e := range path {
 		switch e.Kind {
 		case PEField:
@@ -489,6 +501,9 @@ func (ex *Exec) getPath(v Value, path []PathElem) Value {
 func (ex *Exec) setPath(v Value, path []PathElem, nv Value) Value {
 	if len(path) == 0 {
 		return nv
+	}
+	if pz, ok := v.(Poison); ok {
+		panic(engineErr("partial write to %s: its package's init is not executed by the engine, so its initial value is not modelled", pz.Name))
 	}
 	e := path[0]
 	switch e.Kind {
@@ -537,12 +552,18 @@ func (ex *Exec) load(p Ptr) Value {
 	if p.Obj == nil {
 		panic(engineErr("load through nil pointer (unchecked)"))
 	}
+	if pz, ok := p.Obj.Val.(Poison); ok {
+		ex.lazyInitGlobal(pz, p.Obj)
+	}
 	return ex.getPath(p.Obj.Val, p.Path)
 }
 
 func (ex *Exec) store(p Ptr, v Value) {
 	if p.Obj == nil {
 		panic(engineErr("store through nil pointer (unchecked)"))
+	}
+	if pz, ok := p.Obj.Val.(Poison); ok && len(p.Path) > 0 {
+		ex.lazyInitGlobal(pz, p.Obj)
 	}
 	ex.setObj(p.Obj, ex.setPath(p.Obj.Val, p.Path, v))
 }
